@@ -54,7 +54,7 @@ RECIPES = {
         level="model_checking",
         monitors={"C01"},
         mc=[MC_QM, MC_CLEAN],
-        runs=[dict(cmd="run", gen="restarts:120,gc-heavy:20,big:8,many-queues:8,names:8,aim-gc:60,aim-roll:30,aim-block:40,aim-batch:10,aim-pin:20,aim-seam:40,aim-stale:10,aim-span:10", policy="always_flush"),
+        runs=[dict(cmd="run", gen="restarts:120,gc-heavy:20,big:8,many-queues:8,names:8,aim-gc:60,aim-roll:30,aim-block:40,aim-batch:10,aim-pin:20,aim-seam:40,aim-stale:10,aim-span:10,aim-recreate:30,recreate:20", policy="always_flush"),
               dict(cmd="run", gen="restarts:30,gc-heavy:6", policy="do_nothing,always_fsync,on_delay_long_flush"),
               dict(cmd="run", genreal="GEN_Wal.cfg", genreal_thorough="GEN_Wal_5.cfg")],
         rule="state after every Drop+open compared with QueueMap's state before it; non-trivial = restarts executed",
@@ -174,9 +174,11 @@ RECIPES = {
                    thorough_factor=6),
               # clean histories: batches spanning several files, GC passes triggered by other queues, clean restarts
               dict(cmd="run", gen="aim-span:24,batch:20,big:6,aim-batch:40", policy="always_flush"),
+              # (with the compound experiment of C08: damage that moves the end of the log, a reopen, a crash inside an
+              # aimed BATCH append whose spliced entry is malformed - it must be dropped as a whole)
               dict(cmd="damage", gen="batch:24,big:4,aim-batch:30,aim-recreate:20", policy="always_flush",
-                   opts={"classes": "payload,crc,hdr"},
-                   opts_thorough={"classes": "payload,crc,hdr", "thorough": True}, thorough_factor=6)],
+                   opts={"classes": "payload,crc,hdr", "dmgcrash": True, "compound": "60"},
+                   opts_thorough={"classes": "payload,crc,hdr", "thorough": True, "dmgcrash": True, "compound": "300"}, thorough_factor=6)],
         rule="every batch ever appended is recovered entirely, not at all, or as an upper segment, at every crash point "
              "and after the continuation's restart; non-trivial = crash points strictly inside a call",
         nontrivial_stat="crash_incall_points",
